@@ -14,6 +14,11 @@ fn usage() -> ! {
 fn main() {
     let args: Vec<String> = std::env::args().collect();
     if args.len() < 2 { usage(); }
+    // sorts with several hundred runs keep one descriptor per run: lift the soft limit to what the hard limit allows
+    unsafe {
+        let mut r = libc::rlimit { rlim_cur: 0, rlim_max: 0 };
+        if libc::getrlimit(libc::RLIMIT_NOFILE, &mut r) == 0 && r.rlim_cur < 8192 { r.rlim_cur = r.rlim_max.min(8192); libc::setrlimit(libc::RLIMIT_NOFILE, &r); }
+    }
     let props = props::all();
     match args[1].as_str() {
         "list" => { for p in &props { println!("{}", p.id); } }
@@ -71,7 +76,7 @@ fn main() {
                 i += 1;
             }
             // panics of the code under test are observables, not noise
-            std::panic::set_hook(Box::new(|_| {}));
+            if std::env::var("VERIF_SHOW_PANICS").is_err() { std::panic::set_hook(Box::new(|_| {})); }
             let code = runner::run_prop(p, &o);
             std::process::exit(code);
         }
